@@ -13,10 +13,10 @@ type mvar struct {
 }
 
 type mgen struct {
-	r     *rng
-	p     *mprog
-	nvar  int
-	fidx  int // function being generated: may call only functions with a smaller index
+	r    *rng
+	p    *mprog
+	nvar int
+	fidx int // function being generated: may call only functions with a smaller index
 }
 
 func (g *mgen) lit(k mkind) *mexpr {
@@ -392,9 +392,11 @@ type mrepl struct {
 	mk  func(orig *mexpr) *mexpr
 }
 
-func replStr() mrepl  { return mrepl{"RStr", func(*mexpr) *mexpr { return &mexpr{Tag: "Str", N: 7} }} }
-func replInt() mrepl  { return mrepl{"RInt", func(*mexpr) *mexpr { return &mexpr{Tag: "Int", N: 1} }} }
-func replBool() mrepl { return mrepl{"RBool", func(*mexpr) *mexpr { return &mexpr{Tag: "Bool", B: true} }} }
+func replStr() mrepl { return mrepl{"RStr", func(*mexpr) *mexpr { return &mexpr{Tag: "Str", N: 7} }} }
+func replInt() mrepl { return mrepl{"RInt", func(*mexpr) *mexpr { return &mexpr{Tag: "Int", N: 1} }} }
+func replBool() mrepl {
+	return mrepl{"RBool", func(*mexpr) *mexpr { return &mexpr{Tag: "Bool", B: true} }}
+}
 func replCall(f int) mrepl {
 	return mrepl{fmt.Sprintf("(RCall %d)", f), func(*mexpr) *mexpr { return &mexpr{Tag: "Call", N: f} }}
 }
@@ -477,8 +479,10 @@ func assignFam(src, dst mty) string {
 }
 
 // exprMutations: rewrites of the expression node e.
-func (p *mprog) exprMutations(env menv, e *mexpr, rvalue bool) (out []mrewrite) {
-	add := func(name, coq, fam string, ne *mexpr) { out = append(out, mrewrite{name: name, coq: coq, fam: fam, e: ne}) }
+func (p *mprog) exprMutations(env menv, e *mexpr, rvalue, litPre bool) (out []mrewrite) {
+	add := func(name, coq, fam string, ne *mexpr) {
+		out = append(out, mrewrite{name: name, coq: coq, fam: fam, e: ne})
+	}
 	with := func(i int, a *mexpr) *mexpr {
 		c := e.clone()
 		c.Args[i] = a
@@ -589,7 +593,15 @@ func (p *mprog) exprMutations(env menv, e *mexpr, rvalue bool) (out []mrewrite) 
 	case "Field":
 		c := e.clone()
 		c.N = 99
-		add("18-undef-field", "MUndefField", "ok", c)
+		fam := "ok"
+		if litPre {
+			// cfg.go types the elements of a composite literal in pre-order, through parentheses, unary
+			// and binary expressions (second operand when the first is an untyped constant): an undefined
+			// selector met on that walk is a nil dereference in the host, not an error. That shape is
+			// outside the family modelled by Y; the rich stream carries it (finding C12-esc-18).
+			fam = ""
+		}
+		add("18-undef-field", "MUndefField", fam, c)
 	case "Len":
 		add("25-len-of-int", "(MArg 0 RInt)", "", with(0, replInt().mk(nil)))
 		add("25-len-of-int", "(MArg 0 (RCall 1))", "ok", with(0, replCall(1).mk(nil)))
@@ -623,7 +635,9 @@ func (p *mprog) exprMutations(env menv, e *mexpr, rvalue bool) (out []mrewrite) 
 
 // stmtMutations: rewrites of the statement node itself.
 func (p *mprog) stmtMutations(env menv, rets []mty, s *mstmt) (out []mrewrite) {
-	add := func(name, coq, fam string, ns *mstmt) { out = append(out, mrewrite{name: name, coq: coq, fam: fam, s: ns}) }
+	add := func(name, coq, fam string, ns *mstmt) {
+		out = append(out, mrewrite{name: name, coq: coq, fam: fam, s: ns})
+	}
 	withE := func(i int, e *mexpr) *mstmt {
 		c := s.clone()
 		c.Es[i] = e
@@ -719,9 +733,9 @@ func c12MiniMutants(p *mprog) []mmutant {
 				}
 				for ei, e := range s.Es {
 					ei := ei
-					var walkExpr func(e *mexpr, epath []int, rvalue bool)
-					walkExpr = func(e *mexpr, epath []int, rvalue bool) {
-						for _, em := range p.exprMutations(env, e, rvalue) {
+					var walkExpr func(e *mexpr, epath []int, rvalue, litPre bool)
+					walkExpr = func(e *mexpr, epath []int, rvalue, litPre bool) {
+						for _, em := range p.exprMutations(env, e, rvalue, litPre) {
 							q := p.clone()
 							st := (*get(q))[si]
 							if len(epath) == 0 {
@@ -736,11 +750,20 @@ func c12MiniMutants(p *mprog) []mmutant {
 							out = append(out, mmutant{em.name, em.coq, em.fam, msite{fi, sp, ei, append([]int{}, epath...)}, q})
 						}
 						for k, a := range e.Args {
+							pre := false
+							switch e.Tag {
+							case "SLit", "LLit":
+								pre = true
+							case "Un":
+								pre = litPre
+							case "Bin":
+								pre = litPre && (k == 0 || p.infer(env, e.Args[0]).U != "")
+							}
 							// the operand of an index/field selection on the left of an assignment stays an l-value
-							walkExpr(a, append(append([]int{}, epath...), k), rvalue || (k > 0))
+							walkExpr(a, append(append([]int{}, epath...), k), rvalue || (k > 0), pre)
 						}
 					}
-					walkExpr(e, nil, !(s.Tag == "Assign" && ei == 0))
+					walkExpr(e, nil, !(s.Tag == "Assign" && ei == 0), false)
 				}
 				if s.Tag == "If" || s.Tag == "For" {
 					walkBlock(func(q *mprog) *[]*mstmt { return &(*get(q))[si].B1 }, s.B1, append(append([]int{}, sp...), 0), env)
